@@ -43,7 +43,8 @@ REPS = {"quick": {"s100": 1, "s300": 1, "s1000": 1, "s5000": 0},
         "thorough": {"s100": 10, "s300": 8, "s1000": 5, "s5000": 2}}
 FAMILIES = ["normal", "normal", "gumbel", "expo"]      # null-score family, drawn per case (normal twice as likely)
 AFFINE = [(1.0, 0.0), (1.0, 0.0), (0.05, -7.5), (40.0, 300.0)]
-MIX = {"separated": (0.5, 0.7, 5.0), "overlapping": (0.4, 0.6, 1.5), "mostly_null": (0.04, 0.1, 3.0)}
+MIX = {"separated": (0.5, 0.7, 5.0), "overlapping": (0.4, 0.6, 1.5), "mostly_null": (0.04, 0.1, 3.0),
+       "null": (0.0, 0.0, 0.3)}      # no signal at all: targets and decoys from the same distribution (one target shifted by 0.3)
 
 
 # ----------------------------------------------------------------------------------------------------------
@@ -297,6 +298,13 @@ def make_cases(ctx, shapes):
                           "n": lo if (rep == 0 and size == "s100") else int(rng.integers(lo, hi + 1)),
                           "family": FAMILIES[int(rng.integers(0, len(FAMILIES)))],
                           "affine": list(AFFINE[int(rng.integers(0, len(AFFINE)))]), "seed": seed})
+    # no signal: a legitimate (non-degenerate) score distribution; PEPs must still not decrease as the score worsens
+    for j in range(6 if ctx.quick else 60):
+        alg = ["kde_nnls", "hist_nnls", "kde_nnls"][j % 3]
+        rng = np.random.default_rng([int(ctx.seed), 67, j])
+        cases.append({"kind": "pep", "alg": alg, "mixture": "null", "ties": "none", "perm": "random", "size": "s1000",
+                      "n": int(rng.integers(400, 1500)), "family": "normal", "affine": list(AFFINE[j % len(AFFINE)]),
+                      "seed": [int(ctx.seed), 67, j]})
     # two deliberately out-of-domain estimates (30 targets + 30 decoys): must be accepted vacuously
     for j, alg in enumerate(["kde_nnls", "tdc"]):
         cases.append({"kind": "pep" if j == 0 else "q", "alg": alg, "mixture": "separated", "ties": "none",
